@@ -46,7 +46,7 @@ func init() { register("C14Locks", genC14Locks) }
 
 const c14mod = "github.com/henrylee2cn/erpc/v6"
 
-var c14pkgs = []string{"", "/socket", "/utils", "/proto/thriftproto", "/plugin/overloader"}
+var c14pkgs = []string{"", "/socket", "/utils", "/proto/thriftproto", "/plugin/overloader", "/plugin/heartbeat", "/xfer/gzip"}
 
 // tracked structs, by package-qualified name
 var c14tracked = map[string]bool{
@@ -56,6 +56,8 @@ var c14tracked = map[string]bool{
 	"thriftproto.tBinaryProto": true, "thriftproto.tStructProto": true,
 	"utils.ReadWriteCounter": true, "utils.ReadCounter": true, "utils.WriteCounter": true,
 	"overloader.Overloader": true, "overloader.connLimiter": true, "overloader.qpsLimiter": true,
+	"heartbeat.heartbeatInfo": true, "heartbeat.heartPing": true,
+	"gzip.Gzip": true,
 }
 
 // named types declared as another tracked struct type share its fields and lock classes
@@ -410,11 +412,68 @@ func (w *c14walker) block(stmts []ast.Stmt, ls []c14lock) ([]c14lock, bool) {
 	for _, s := range stmts {
 		var term bool
 		ls, term = w.stmt(s, ls)
+		w.published(s)
 		if term {
 			return ls, true
 		}
 	}
 	return ls, false
+}
+
+// publishers: calls that hand an object to other goroutines (session index, goroutine pool,
+// peer registry). A fresh variable stops being pre-publication after the statement in which it
+// is passed to one of them (as argument, method value or inside a function literal) or
+// mentioned in a go statement.
+var c14publishers = map[string]bool{"set": true, "AnywayGo": true, "Go": true, "MustGo": true, "TryGo": true, "addPeer": true}
+
+func (w *c14walker) published(s ast.Stmt) {
+	if len(w.fresh) == 0 {
+		return
+	}
+	switch s.(type) {
+	case *ast.ExprStmt, *ast.GoStmt, *ast.AssignStmt, *ast.IfStmt:
+	default:
+		return
+	}
+	if ifs, ok := s.(*ast.IfStmt); ok {
+		// only the condition / init of an if statement is considered here; its body is a
+		// block of its own
+		if ifs.Init != nil {
+			w.published(ifs.Init)
+		}
+		return
+	}
+	mentions := func(n ast.Node) {
+		ast.Inspect(n, func(x ast.Node) bool {
+			if id, ok := x.(*ast.Ident); ok && w.fresh[id.Name] {
+				delete(w.fresh, id.Name)
+			}
+			return true
+		})
+	}
+	ast.Inspect(s, func(n ast.Node) bool {
+		switch x := n.(type) {
+		case *ast.FuncLit:
+			return false // a literal is judged where it is passed on
+		case *ast.GoStmt:
+			mentions(x.Call)
+			return false
+		case *ast.CallExpr:
+			name := ""
+			switch f := x.Fun.(type) {
+			case *ast.Ident:
+				name = f.Name
+			case *ast.SelectorExpr:
+				name = f.Sel.Name
+			}
+			if c14publishers[name] {
+				for _, a := range x.Args {
+					mentions(a)
+				}
+			}
+		}
+		return true
+	})
 }
 
 func (w *c14walker) stmt(s ast.Stmt, ls []c14lock) ([]c14lock, bool) {
@@ -814,6 +873,14 @@ func (w *c14walker) lhs(e ast.Expr, ls []c14lock) {
 func (w *c14walker) selector(x *ast.SelectorExpr, ls []c14lock, write, atomic bool) {
 	steps := w.g.fieldSteps(w.g.info, x)
 	sel := w.g.info.Selections[x]
+	if id, ok := x.X.(*ast.Ident); ok && sel != nil {
+		// a local variable holding a struct VALUE (cp := info.elemCopy()) is a private copy
+		if v, ok := w.g.info.Uses[id].(*types.Var); ok && !v.IsField() && v.Pkg() != nil && v.Parent() != v.Pkg().Scope() {
+			if _, isStruct := v.Type().Underlying().(*types.Struct); isStruct {
+				sel = nil
+			}
+		}
+	}
 	if sel != nil {
 		base := w.baseString(x.X)
 		fresh := w.fresh[rootIdent(x.X)]
